@@ -170,6 +170,14 @@ type LangID uint16
 // Derived languages not exactly supported are mapped to their primary part : for instance,
 // 'fr-be' is mapped to 'fr'
 func NewLangID(l Language) (LangID, bool) {
+	// an exact match in the second segment takes precedence over
+	// a primary tag match in the first one (for instance 'ks-devanagari' over 'ks')
+	if tail := languagesInfos[knownLangsCount:]; len(l) != 0 {
+		i := sort.Search(len(tail), func(i int) bool { return tail[i].lang >= l })
+		if i < len(tail) && tail[i].lang == l {
+			return knownLangsCount + LangID(i), true
+		}
+	}
 	if i, ok := binarySearchLang(l, languagesInfos[:knownLangsCount]); ok {
 		return LangID(i), true
 	}
